@@ -235,10 +235,11 @@ def group_case(draw, tier="quick"):
         if not pool:
             continue
         aggs[f] = draw(st.lists(st.sampled_from(pool), min_size=1, max_size=2, unique=True))
-    apply_ = draw(st.lists(st.tuples(st.sampled_from(["custom", "v_sum", "my agg", "k"]), st.integers(0, nv - 1)),
+    apply_ = draw(st.lists(st.tuples(st.sampled_from(["custom", "v_sum", "v_sum2", "my agg", "k", "g2", "v_max2"]), st.integers(0, nv - 1)),
                            max_size=2, unique_by=lambda x: x[0]))
+    key_names = draw(st.lists(st.sampled_from(["g", "g", "g2", "G 1", "v_sum", "v_sum2", None, "g22"]), min_size=nk, max_size=nk))
     single = draw(st.booleans())   # pass single specs bare instead of in a list
-    return {"n": n, "keys": keys, "vals": vals, "aggs": aggs, "apply": apply_, "single": single}
+    return {"n": n, "keys": keys, "vals": vals, "aggs": aggs, "apply": apply_, "single": single, "key_names": key_names}
 
 
 KEY_NAMES = ["g0", "G 1", "g2"]
@@ -249,10 +250,15 @@ def realise_group(case):
     """-> (table, over specs, value specs, key tuples)"""
     n = case["n"]
     cols, kpos, vpos = [], {}, {}
+    knames = []
     for i, k in enumerate(case["keys"]):
+        nm = (case.get("key_names") or KEY_NAMES)[i]
+        if k["form"] == "name" and (nm is None or nm in [c[0] for c in cols]):
+            nm = f"key{i}_"            # a key addressed by name needs a name that denotes it
+        knames.append(nm)
         if k["form"] != "ext":
             kpos[i] = len(cols)
-            cols.append((KEY_NAMES[i], k["values"]))
+            cols.append((nm, k["values"]))
     for j, v in enumerate(case["vals"]):
         if v["form"] != "ext":
             nm = v["name"]
@@ -266,7 +272,7 @@ def realise_group(case):
     over, vspecs = [], []
     for i, k in enumerate(case["keys"]):
         if k["form"] == "ext":
-            over.append(S.Vector(list(k["values"]), name=(KEY_NAMES[i] if i != 1 else None)))
+            over.append(S.Vector(list(k["values"]), name=knames[i]))
         elif k["form"] == "own":
             over.append(t.cols()[kpos[i]])
         else:
